@@ -1065,7 +1065,7 @@ def metadata_probe(tier, rep):
 
 
 def check_C13(tier):
-    return run_hist_prop('C13', tier, 13, 200, 10000, families=[gen.scen_reads, gen.scen_stamped, gen.scen_selfread, gen.scen_sibling_outputs, gen.scen_read_after_caught_failure], per_family=(120, 3000),
+    return run_hist_prop('C13', tier, 13, 200, 10000, families=[gen.scen_mode_switch, gen.scen_reads, gen.scen_stamped, gen.scen_selfread, gen.scen_sibling_outputs, gen.scen_read_after_caught_failure], per_family=(120, 3000),
                          extra_cases=c13_cases, prof=dict(gen.DEFAULT_PROFILE, p_hash=0.5),
                          _after=lambda rep: [rep.violation('bigfile', {'property': 'C13', 'kind': 'failing-input', 'what': q},
                                                            note=json.dumps(q, default=str)[:250]) for q in (bigfile_probe(tier, rep) + metadata_probe(tier, rep))[:3]])
